@@ -358,12 +358,16 @@ def run(ctx, rep):
                     sides = [show(a) for a in ev[3][1:3]]
                 if ev[0] == "call" and ev[2].endswith("::map") and disc is None and "_index" in show(ev[3][0]) and len(ev[3]) == 2 and ev[3][1][0] == "closure":
                     disc = show(ev[3][0])
-        if sides and "left_index" in sides[0] and "right_index" not in sides[0] and "right_index" in sides[1] and "left_index" not in sides[1]:
+        if sides is None:
+            undecided("C18.convert", "the closures that map the children's indices (no map_left_right call found)")
+        elif "left_index" in sides[0] and "right_index" not in sides[0] and "right_index" in sides[1] and "left_index" not in sides[1]:
             rep.ok("C18.convert", "left closure captures left_index, right closure right_index", sides)
         else:
             rep.violation("C18.convert", "sides", "map_left_right is given %s: expected the left-child closure to use left_index and the right-child closure right_index"
                           % sides, g.where())
-        if disc and "right_index" in disc:
+        if disc is None and sides is None:
+            undecided("C18.convert", "where the converted disconnected child is looked up")
+        elif disc and "right_index" in disc:
             rep.ok("C18.convert", "the disconnected child is looked up through right_index", disc)
         else:
             rep.violation("C18.convert", "disconnect", "the converted disconnected child is derived from %s; expected the item's right_index" % disc, g.where())
